@@ -958,8 +958,22 @@ func checkConstructors(c *Ctx, p *Prog, rule string) {
 			c.Check(isPtr && isParam, rule, fmt.Sprintf("constructor/marshal#%d/through-the-pointer-argument", nm), p.Pos(in.Pos()), "json.Marshal(the *T argument)", "the entity is marshalled as "+describeValue(arg)+" rather than through the *T argument: an entity type whose MarshalJSON/MarshalText has a pointer receiver is written with the default encoding while the materializer decodes it with its UnmarshalJSON — the value does not survive the round trip")
 		}
 	}
-	c.Check(hasOrigin(got["Value"], "call:encoding/json.Marshal#0") && len(got["Value"]) == 1, rule, "constructor/value-is-marshalled-argument", p.Pos(f.Pos()), "Value ← json.Marshal(value)", fmt.Sprintf("the message's value is not exactly json.Marshal of the entity (origins %v)", got["Value"]))
-	c.Check(hasOrigin(got["OldValue"], "call:encoding/json.Marshal#0") && len(got["OldValue"]) == 1, rule, "constructor/old-value-is-marshalled-argument", p.Pos(f.Pos()), "OldValue ← json.Marshal(oldValue)", fmt.Sprintf("the message's old value is not exactly json.Marshal of the old entity (origins %v)", got["OldValue"]))
+	// the marshalled bytes may pass through a helper of the package that returns either them
+	// or nil (marshalOptional): its own call and the nil it may return are not extra sources
+	onlyMarshal := func(os []string) bool {
+		if !hasOrigin(os, "call:encoding/json.Marshal#0") {
+			return false
+		}
+		for _, o := range os {
+			if o == "call:encoding/json.Marshal#0" || o == "nil" || strings.HasPrefix(o, "call:state.") {
+				continue
+			}
+			return false
+		}
+		return true
+	}
+	c.Check(onlyMarshal(got["Value"]), rule, "constructor/value-is-marshalled-argument", p.Pos(f.Pos()), "Value ← json.Marshal(value)", fmt.Sprintf("the message's value is not exactly json.Marshal of the entity (origins %v)", got["Value"]))
+	c.Check(onlyMarshal(got["OldValue"]), rule, "constructor/old-value-is-marshalled-argument", p.Pos(f.Pos()), "OldValue ← json.Marshal(oldValue)", fmt.Sprintf("the message's old value is not exactly json.Marshal of the old entity (origins %v)", got["OldValue"]))
 	okKey := false
 	for _, o := range got["Key"] {
 		if strings.HasPrefix(o, "param:") && strings.HasSuffix(o, ".key") {
